@@ -14,13 +14,23 @@ warn_on_retrace_num = int(os.environ.get("EINX_WARN_ON_RETRACE", 0))
 max_cache_size = int(os.environ.get("EINX_CACHE_SIZE", -1))
 
 
+def _is_negative_zero(x):
+    # 0.0 == -0.0, but the two are different values for a traced function (e.g. np.copysign, 1 / x)
+    return isinstance(x, float | np.floating) and x == 0 and bool(np.signbit(x))
+
+
 class _TypedScalar:
     # Hashable wrapper that distinguishes scalars that compare equal in Python but have different types (2, 2.0, True)
     def __init__(self, value):
         self.value = value
 
     def __eq__(self, other):
-        return isinstance(other, _TypedScalar) and type(self.value) is type(other.value) and self.value == other.value
+        return (
+            isinstance(other, _TypedScalar)
+            and type(self.value) is type(other.value)
+            and self.value == other.value
+            and _is_negative_zero(self.value) == _is_negative_zero(other.value)
+        )
 
     def __hash__(self):
         return hash((type(self.value), self.value))
